@@ -9,7 +9,7 @@
 (* verdict the property demands, and the code-shaped sequential validation  *)
 (* accepts exactly the headers satisfying the declarative rule set.         *)
 (***************************************************************************)
-EXTENDS Header, TLC
+EXTENDS Header, TLC, Json
 
 CONSTANTS MaxLen, StepDeltas, Now,
           Prefix   \* the first Prefix headers all use the smallest block time (keeps the enumeration small)
@@ -144,6 +144,56 @@ ReadDecided ==
     /\ ReadCheck([h EXCEPT !.ts = Now + FTL], Now) = "ok"
     /\ ReadCheck([h EXCEPT !.ts = Now + FTL + 1], Now) = "future_time"
     /\ ReadCheck([h EXCEPT !.outs = 12 * (h.height + 1)], Now) = "global_weight"   \* 252(h+1)+3k > 250(h+1)
+
+(***************************************************************************)
+(* Wire-entry layer: wrapping x timestamp class x (otherwise valid / some   *)
+(* other single-field mutation).  The classes are relative to the node's    *)
+(* clock `Now` (a model input); here the boundaries are exact, the harness  *)
+(* realises `limit_plus` with a safety margin against the wall clock.       *)
+(***************************************************************************)
+TsClasses == {"past", "now", "limit_minus", "limit", "limit_plus", "far"}
+AcceptTs  == {"past", "now", "limit_minus", "limit"}
+TsOf(c, h) == CASE c = "past"        -> h.ts
+                [] c = "now"         -> Now
+                [] c = "limit_minus" -> Now + FTL - 1
+                [] c = "limit"       -> Now + FTL
+                [] c = "limit_plus"  -> Now + FTL + 1
+                [] OTHER             -> Now + FTL + 7200
+WireMuts == {"valid", "height_plus", "version_plus", "prev_unknown", "prev_root_bad", "total_plus1", "scaling_plus1",
+             "proof_tampered", "edge_bits_below", "too_heavy", "heaviest", "outputs_plus1"}
+WirePlans == {[w |-> w, tsc |-> c, mut |-> m] : w \in Wrappings, c \in TsClasses, m \in WireMuts}
+
+WireCases(h0, prev) == {M("valid", TRUE, h0)} \cup {m \in Mutants(h0, prev) : m.name \in WireMuts}
+
+(* Whatever the wrapping (and whichever options its adapter passes), a header from a peer is
+   taken iff the mutation is one the property allows AND its timestamp is at most FTL ahead
+   of the node's clock; and that is exactly the declarative statement WireRules. *)
+WireDecided ==
+  LET nd == ND
+      h0 == Honest(MinDelta, nd)
+  IN \A m \in WireCases(h0, known[tip]) : \A c \in TsClasses :
+       LET h    == [m.h EXCEPT !.ts = TsOf(c, m.h)]
+           want == m.benign /\ c \in AcceptTs
+       IN /\ want = WireRulesWith(h, known, nd, Now)
+          /\ \A w \in Wrappings : \A o \in WireOpts(w) :
+                (WireRead(<<h>>, Now) = "ok" /\ AccO(h, o, nd)) = want
+
+(* the same at the entry points themselves, for the otherwise valid header (these recompute
+   the network difficulty): what `Receive` hands to the pipeline and what comes back *)
+WireEntryDecided ==
+  LET h0 == [Honest(MinDelta, ND) EXCEPT !.id = MId] IN
+  \A c \in TsClasses :
+    LET h  == [h0 EXCEPT !.ts = TsOf(c, h0)]
+        rd == WireRead(<<h>>, Now)
+    IN /\ (rd = "ok") = (c \in AcceptTs)
+       /\ (rd # "ok") => rd = "future_time"
+       /\ (rd = "ok") => /\ ProcessHeaderRes(h, known, {}) = "ok"
+                          /\ SyncRes(<<h>>, known, {"SYNC"}) = "ok"
+                          /\ WireRules(h, known, Now)
+       /\ (rd # "ok") => ~WireRules(h, known, Now)
+
+(* direction A generator: the plans the harness executes on the real readers + pipeline *)
+EmitWirePlans == tip = 1 => \A p \in WirePlans : PrintT(<<"WPLAN", ToJson(p)>>)
 
 (* the chain built so far is a chain: heights, strictly increasing time and work *)
 ChainOK ==
